@@ -618,7 +618,7 @@ spif_mbuff_splice(spif_mbuff_t self, spif_memidx_t idx, spif_memidx_t cnt, spif_
         memcpy(tmp, self->buff, idx);
         ptmp += idx;
     }
-    if (!SPIF_MBUFF_ISNULL(other)) {
+    if (!SPIF_MBUFF_ISNULL(other) && other->len) {
         memcpy(ptmp, other->buff, other->len);
         ptmp += other->len;
     }
